@@ -98,6 +98,11 @@ type vfc18Nodes struct {
 	// covers (vf_c18_nodes_test.go: every node answers COMMAND GETKEYS in its own way and checks blocks by that
 	// answer, like a real node checks them with its own command table); unknown = the node does not know the command
 	view func(idx int, cmd [][]byte) (keys [][]byte, unknown bool)
+	// getkeysAns: node idx's answer to COMMAND GETKEYS <cmd> <args…> sent to it over the wire (the REAL Cluster.commandGetKeys:
+	// getRandomNode + do); queries / queryKeys record which node was asked, in order, and the keys it named (nil: none / error)
+	getkeysAns func(idx int, cmd [][]byte) (keys []string, err error, garbage bool)
+	queries    []int
+	queryKeys  [][]string
 	// one-shot fault for the next block that reaches any node:
 	//   crossslot (queue-time error + EXECABORT), execerr (error entry inside the EXEC array),
 	//   moved / ask (redirect the whole block to the next node once)
@@ -340,6 +345,38 @@ func (ns *vfc18Nodes) serve(idx int, c net.Conn) {
 				}
 			}
 			bw.WriteString(reply)
+		case name == "command" && len(cmd) >= 3 && strings.EqualFold(string(cmd[1]), "getkeys"):
+			// introspection, not a write: answered by THIS node in its own way, and recorded
+			ns.mu.Lock()
+			ans := ns.getkeysAns
+			ns.mu.Unlock()
+			var keys []string
+			var aerr error
+			garbage := false
+			if ans == nil {
+				aerr = errors.New("ERR Invalid command specified")
+			} else {
+				keys, aerr, garbage = ans(idx, cmd[2:])
+			}
+			ns.mu.Lock()
+			ns.queries = append(ns.queries, idx)
+			if garbage || aerr != nil || len(keys) == 0 {
+				ns.queryKeys = append(ns.queryKeys, nil)
+			} else {
+				ns.queryKeys = append(ns.queryKeys, keys)
+			}
+			ns.mu.Unlock()
+			switch {
+			case garbage:
+				bw.WriteString(":7\r\n")
+			case aerr != nil:
+				bw.WriteString("-" + aerr.Error() + "\r\n")
+			default:
+				fmt.Fprintf(bw, "*%d\r\n", len(keys))
+				for _, k := range keys {
+					fmt.Fprintf(bw, "$%d\r\n%s\r\n", len(k), k)
+				}
+			}
 		default:
 			ns.mu.Lock()
 			ns.stray++
@@ -473,8 +510,72 @@ func vfc18Fb(id string, args [][]byte) ([]string, error) {
 			out = append(out, string(a))
 		}
 		return out, nil
+	case "nk":
+		// a module command in the ZUNIONSTORE layout: dst numkeys key… [option…] — the key positions depend on the
+		// CONTENT of an argument, not on name and arity (session 5: a resolver that remembers positions per name/arity)
+		if len(args) < 2 {
+			return nil, errors.New("ERR wrong number of arguments")
+		}
+		n := vfc18Digits(args[1])
+		if n < 1 || 2+n > len(args) {
+			return nil, errors.New("ERR Invalid arguments specified for command")
+		}
+		out := []string{string(args[0])}
+		for _, a := range args[2 : 2+n] {
+			out = append(out, string(a))
+		}
+		return out, nil
+	case "n0", "n1":
+		// Redis's genericGetKeys for the movablekeys commands the tool's tables have NO row for: numkeys at argument 0
+		// (ZUNION / ZINTER / ZDIFF / SINTERCARD / ZINTERCARD numkeys key…) or 1 (EVAL_RO / EVALSHA_RO script numkeys key…),
+		// the keys follow the count; a count that is no positive number or exceeds the arguments present: no keys
+		c := 0
+		if id == "n1" {
+			c = 1
+		}
+		if len(args) <= c {
+			return nil, nil
+		}
+		n := vfc18Digits(args[c])
+		if len(args[c]) == 0 || n < 1 || n > len(args)-(c+1) {
+			return nil, nil
+		}
+		out := make([]string, 0, n)
+		for _, a := range args[c+1 : c+1+n] {
+			out = append(out, string(a))
+		}
+		return out, nil
+	case "st":
+		// the SORT layout: key … [STORE dst] …, the LAST store option names the destination
+		if len(args) == 0 {
+			return nil, nil
+		}
+		out := []string{string(args[0])}
+		dst := -1
+		for i := 1; i < len(args); i++ {
+			if strings.EqualFold(string(args[i]), "store") && i+1 < len(args) {
+				dst = i + 1
+				i++
+			}
+		}
+		if dst >= 0 {
+			out = append(out, string(args[dst]))
+		}
+		return out, nil
 	}
 	return nil, nil // "none", "empty"
+}
+
+// digits only (as keyspec.parseCommandInt and the Lean driver read a count); -1 otherwise, 0 for ""
+func vfc18Digits(b []byte) int {
+	v := 0
+	for _, c := range b {
+		if c < '0' || c > '9' || v > 1<<20 {
+			return -1
+		}
+		v = v*10 + int(c-'0')
+	}
+	return v
 }
 
 type vfc18Introspector struct{ fb string }
@@ -974,6 +1075,7 @@ type vfc18World struct {
 	ro                  *RedisOutput
 	clusters            map[string]*cluster.Cluster
 	nodesHook           func(cmd string, args ...interface{}) ([]string, error) // COMMAND GETKEYS of the "nodes" client (vf_c18_nodes_test.go)
+	nodesReal           bool                                                    // … or the REAL commandGetKeys against the node doubles
 	privSeq             int
 	loopSeq, loopStalls int
 }
@@ -1287,10 +1389,42 @@ func (w *vfc18World) replayFile(t *testing.T, r *vfutil.Rand, path string) bool 
 	flag := func(k string) bool { v, _ := m[k].(bool); return v }
 	num := func(k string) int { v, _ := m[k].(float64); return int(v) }
 	switch {
+	case str("parse_txns") != "":
+		var txns []vfc18LoopTxn
+		for _, part := range strings.Split(str("parse_txns"), " | ") {
+			cmds := vfc18ParseRToks(strings.Fields(part))
+			tb := vfc18TruthOf(cmds, str("fb"))
+			txns = append(txns, vfc18LoopTxn{cmds: cmds, accept: tb.Determined && tb.OneSlot, builderOK: tb.Determined && tb.OneSlot})
+		}
+		var wrap []bool
+		for _, x := range strings.Split(str("parse_wrap"), ",") {
+			wrap = append(wrap, x == "1")
+		}
+		st, _ := strconv.ParseInt(str("parse_start"), 10, 64)
+		sq, _ := strconv.ParseInt(str("parse_seq0"), 10, 64)
+		w.parseRun(str("fb"), txns, wrap, st, sq)
+		s.Count("replayed_parse_case")
+		return true
+	case m["f1"] != nil:
+		for _, c := range vfc18ParseRToks(strings.Fields(str("rcmds"))) {
+			w.findingOne(r, c, str("form"))
+		}
+		s.Count("replayed_f1_case")
+		return true
+	case str("resolver_seq") != "":
+		var seq [][]vfc18Cmd
+		for _, part := range strings.Split(str("resolver_seq"), " | ") {
+			seq = append(seq, vfc18ParseRToks(strings.Fields(part)))
+		}
+		w.resolverSeqRun(str("fb"), seq)
+		s.Count("replayed_resolver_seq")
+		return true
 	case str("nodes_fbs") != "":
 		cmds := vfc18ParseRToks(strings.Fields(str("rcmds")))
 		for i := 0; i < 6; i++ { // the commit kind is drawn
+			w.nodesReal = m["nodes_real"] != nil
 			w.nodesRun(r, cmds, strings.Split(str("nodes_fbs"), ","), vfc18ParseInts(str("nodes_order")), vfc18ParseInts(str("nodes_picks")))
+			w.nodesReal = false
 		}
 		s.Count("replayed_nodes_case")
 		return true
@@ -1507,6 +1641,12 @@ func TestVerifC18(t *testing.T) {
 	// ---- nodes that answer COMMAND GETKEYS differently / with errors; the cluster's transaction flag
 	w.nodesCases(r, vfutil.Scale(500, 20000))
 	w.flagCases(r, vfutil.Scale(200, 5000))
+	// ---- session 5: sequences through ONE resolver instance (key positions that depend on the arguments' content)
+	w.resolverSeqCases(r, vfutil.Scale(300, 6000))
+	w.layoutLoopCases(r, vfutil.Scale(12, 300))
+	w.findingCases(r, vfutil.Scale(60, 600)) // known finding C18-F1 (kept apart from the general generator)
+	w.parseCases(r, vfutil.Scale(600, 20000)) // C18's own tie of the parser model (cluster mode)
+	w.unlistedCases(r, vfutil.Scale(400, 8000)) // movablekeys commands without a row in the tool's tables: resolved by the target or refused
 
 	// ---- corpus, then generated transactions
 	for _, l := range vfutil.Corpus("C18") {
